@@ -76,22 +76,33 @@ theorem fmt_ne_oof (pre post : String) (parts : List (String × Out)) (h : ∀ x
   | ok l => simp
   | error e => exact collect_error_ne_oof parts h e hc
 
+theorem swallow_ne_oof (o : Out) (h : o ≠ .oof) : swallow o ≠ .oof := by
+  cases o <;> simp_all [swallow]
+
+theorem showCall_ne_oof (armed : Bool) (tag : String) (rc : Bool) (fault : Fault) (inner : Out)
+    (h : inner ≠ .oof) : showCall armed tag rc fault inner ≠ .oof := by
+  unfold showCall
+  split
+  · simp
+  · split
+    · cases inner with
+      | ok s => dsimp only; split <;> simp
+      | exc k => simp
+      | oof => exact absurd rfl h
+    · split <;> simp
+
 theorem showWith_ne_oof (armed : Bool) (r : ReprArg) (inner : Out) (h : inner ≠ .oof) :
     showWith armed r inner ≠ .oof := by
   unfold showWith
   cases r with
   | on => exact h
   | off => exact h
-  | call tag rc fault =>
+  | call tag rc fault tol =>
     dsimp only
+    refine showCall_ne_oof _ _ _ _ _ ?_
     split
-    · simp
-    · split
-      · cases inner with
-        | ok s => dsimp only; split <;> simp
-        | exc k => simp
-        | oof => exact absurd rfl h
-      · split <;> simp
+    · exact swallow_ne_oof _ h
+    · exact h
 
 theorem specField_ne_oof (rec : Nat → Out) (armed : Bool) (vals : List (String × Nat)) (f : Field)
     (h : ∀ i, rec i ≠ .oof) : specField rec armed vals f ≠ .oof := by
